@@ -151,6 +151,7 @@ type input struct {
 	Stall    bool  `json:"stall"`   // hold the reader between unlock and wait while a message arrives
 	Hold     int   `json:"hold,omitempty"` // keep the blocked handler blocked for this many ms after every other run has finished
 	Backlog  int   `json:"backlog,omitempty"` // messages injected for the blocked run behind its blocked handler
+	Trickle  int   `json:"trickle,omitempty"` // messages that keep arriving for the blocked run while its backlog is worked off
 }
 
 type obs struct {
@@ -324,7 +325,42 @@ func run(raw json.RawMessage) lib.Case {
 		rec.stamp(in.Blocked, "ORelease", 0)
 	}
 	close(rec.release)
-	okAll := waitEnded(want, 30*time.Second)
+	inject := func(k, id, work int) {
+		p := roots[k]
+		tok := p.Token()
+		child := tree.Root.Children[0]
+		rootOv.TransmitMsg(&onet.ProtocolMsg{
+			From: tok.ChangeTreeNodeID(child.ID), To: tok, ServerIdentity: child.ServerIdentity,
+			Msg: &Ping{Run: k, ID: id, Work: work}, MsgType: network.MessageType(&Ping{}), Size: 8}, nil)
+	}
+	if in.Blocked >= 0 && in.Trickle > 0 {
+		// the backlog is worked off by slow handlers while a feeder keeps adding, a little faster
+		// than the handlers take them: the queue never drains and grows through several sizes
+		want[in.Blocked] += in.Trickle
+		for j := 0; j < in.Trickle; j++ {
+			inject(in.Blocked, 610000+j, 250)
+			time.Sleep(120 * time.Microsecond)
+		}
+	}
+	okAll := waitEnded(want, 60*time.Second)
+	if in.Blocked >= 0 && in.Backlog > 0 && okAll {
+		// the instance is idle again after the burst: one message, then two that overlap
+		k := in.Blocked
+		want[k]++
+		inject(k, 620000, 0)
+		okAll = waitEnded(want, 30*time.Second)
+		want[k] += 2
+		var wg2 sync.WaitGroup
+		for j := 1; j <= 2; j++ {
+			wg2.Add(1)
+			go func(j int) {
+				defer wg2.Done()
+				inject(k, 620000+j, 3000)
+			}(j)
+		}
+		wg2.Wait()
+		okAll = waitEnded(want, 30*time.Second) && okAll
+	}
 	if in.Stall && okAll {
 		// the wake-up that arrives while the reader is between "queue empty" and the
 		// channel receive must not be lost
@@ -400,6 +436,9 @@ func run(raw json.RawMessage) lib.Case {
 	if in.Backlog > 0 {
 		class += "-backlog"
 	}
+	if in.Trickle > 0 {
+		class += "-trickle"
+	}
 	if feederStuck {
 		class += "+feederstuck"
 	}
@@ -450,6 +489,9 @@ func generate(rng *rand.Rand, tier string) []interface{} {
 		}
 		if in.Blocked >= 0 && rng.Intn(3) == 0 {
 			in.Backlog = 80 + rng.Intn(240)
+			if rng.Intn(2) == 0 {
+				in.Trickle = 100 + rng.Intn(150)
+			}
 		}
 		in.Stall = rng.Intn(2) == 0
 		ins = append(ins, in)
@@ -466,7 +508,9 @@ func corpus() []interface{} {
 	}
 	// a long queue behind a blocked handler
 	l = append(l, input{Servers: 3, Runs: 2, PerChild: 2, Local: 3, Feeders: 2, Work: []int{0}, Blocked: 0, Backlog: 180},
-		input{TCP: true, Servers: 3, Runs: 3, PerChild: 3, Local: 2, Feeders: 1, Work: []int{0, 50}, Blocked: 1, Backlog: 260})
+		input{TCP: true, Servers: 3, Runs: 3, PerChild: 3, Local: 2, Feeders: 1, Work: []int{0, 50}, Blocked: 1, Backlog: 260},
+		input{Servers: 3, Runs: 2, PerChild: 2, Local: 2, Feeders: 1, Work: []int{0}, Blocked: 1, Backlog: 40, Trickle: 220},
+		input{Servers: 3, Runs: 2, PerChild: 1, Local: 1, Feeders: 1, Work: []int{0}, Blocked: 0, Backlog: 75, Trickle: 120})
 	// a handler blocked for a long time (watchdogs, time-outs on the dispatch): 11.5 s, thorough also 65 s
 	l = append(l, input{Servers: 3, Runs: 2, PerChild: 2, Local: 3, Feeders: 1, Work: []int{0}, Blocked: 0, Hold: 11500})
 	for i, a := range os.Args {
